@@ -31,11 +31,42 @@ theorem vaIdx_of_prefix (va : Nat) (r : List Nat) (j : Nat) (rest : List Nat) (k
   rw [vaPath_drop va r.length (by omega), hk, vaPathFrom] at h1
   exact (List.cons.inj h1).1
 
+/-- All indices of a path are real table indices. -/
+def IdxOK (p : List Nat) : Prop := ∀ j ∈ p, j < 512
+
+theorem vaIdx_lt (lvl va : Nat) : vaIdx lvl va < 512 := by unfold vaIdx; omega
+
+theorem IdxOK_vaPathFrom (lvl va : Nat) : IdxOK (vaPathFrom lvl va) := by
+  induction lvl with
+  | zero => intro j hj; simp [vaPathFrom] at hj
+  | succ n ih =>
+    intro j hj
+    simp only [vaPathFrom, List.mem_cons] at hj
+    rcases hj with h | h
+    · rw [h]; exact vaIdx_lt _ _
+    · exact ih j h
+
+theorem IdxOK_append {p q : List Nat} : IdxOK (p ++ q) ↔ IdxOK p ∧ IdxOK q := by
+  unfold IdxOK; simp only [List.mem_append]
+  constructor
+  · intro h; exact ⟨fun j hj => h j (Or.inl hj), fun j hj => h j (Or.inr hj)⟩
+  · rintro ⟨h1, h2⟩ j (hj | hj)
+    · exact h1 j hj
+    · exact h2 j hj
+
+/-- A prefix of a virtual address's path has real indices. -/
+theorem IdxOK_of_prefix {r : List Nat} {va : Nat} (h : r <+: vaPath va) : IdxOK r := by
+  obtain ⟨rest, hrest⟩ := h
+  have := IdxOK_vaPathFrom 4 va
+  rw [show vaPathFrom 4 va = vaPath va from rfl, ← hrest] at this
+  exact (IdxOK_append.1 this).1
+
 /-- **Tree invariant**: the tables of the hierarchy (paths of length ≤ 3 from the root through
 present, non-huge entries) are pairwise distinct frames — no frame is used as two tables, and no
 table is reachable twice. -/
 def WF (m : PMem) (p4 : Word) : Prop :=
-  ∀ p q f, p.length ≤ 3 → q.length ≤ 3 → tblAt m p4 p = some f → tblAt m p4 q = some f → p = q
+  ∀ p q f, p.length ≤ 3 → q.length ≤ 3 → IdxOK p → IdxOK q →
+    tblAt m p4 p = some f → tblAt m p4 q = some f → p = q
 
 /-- What the walk does with an entry `e` read at level `lvl`. -/
 def entryStep (m : PhysMem) (lvl : Nat) (e : Word) (va : Nat) (rw us : Bool) : Option Xlat :=
@@ -66,21 +97,21 @@ A walk that is at table `t` (reached by path `r`) and continues with the indices
 reads the written word — and therefore returns the same result — if `r` is already longer than
 `p`, or `p ++ [i]` is not a prefix of the walk's index path. -/
 theorem walkFrom_set_off (m : PMem) (p4 : Word) (hwf : WF m p4) (p : List Nat) (f : Word) (i : Nat) (v : Word)
-    (hp : tblAt m p4 p = some f) (hpl : p.length ≤ 3) (va : Nat) :
+    (hp : tblAt m p4 p = some f) (hpl : p.length ≤ 3) (hpi : IdxOK p) (va : Nat) :
     ∀ (lvl : Nat) (t : Word) (r : List Nat) (rw us : Bool),
-      tblAt m p4 r = some t → r.length + lvl = 4 →
+      tblAt m p4 r = some t → r.length + lvl = 4 → IdxOK r →
       (p.length < r.length ∨ ¬ (p ++ [i] <+: r ++ vaPathFrom lvl va)) →
       walkFrom (m.set f i v) lvl t va rw us = walkFrom m lvl t va rw us := by
   intro lvl
   induction lvl with
   | zero => intros; rfl
   | succ lvl ih =>
-    intro t r rw us hr hlen hoff
+    intro t r rw us hr hlen hri hoff
     rw [walkFrom_succ, walkFrom_succ]
     -- the entry read at this level is not the written word
     have hne : ¬ (t = f ∧ vaIdx (lvl + 1) va = i) := by
       rintro ⟨htf, hidx⟩
-      have hrp : r = p := hwf r p f (by omega) hpl (htf ▸ hr) hp
+      have hrp : r = p := hwf r p f (by omega) hpl hri hpi (htf ▸ hr) hp
       rcases hoff with h | h
       · rw [hrp] at h; exact Nat.lt_irrefl _ h
       · apply h
@@ -103,7 +134,9 @@ theorem walkFrom_set_off (m : PMem) (p4 : Word) (hwf : WF m p4) (p : List Nat) (
           · left; simp; omega
           · right; simpa [vaPathFrom] using h
         have hlen' : (r ++ [vaIdx (lvl + 1) va]).length + lvl = 4 := by simp; omega
-        have := ih (tableAddr e) (r ++ [vaIdx (lvl + 1) va]) (rw && bitRW e) (us && bitUS e) hr' hlen' hoff'
+        have hri' : IdxOK (r ++ [vaIdx (lvl + 1) va]) :=
+          IdxOK_append.2 ⟨hri, fun j hj => by simp at hj; rw [hj]; exact vaIdx_lt _ _⟩
+        have := ih (tableAddr e) (r ++ [vaIdx (lvl + 1) va]) (rw && bitRW e) (us && bitUS e) hr' hlen' hri' hoff'
         by_cases h4 : lvl + 1 = 4
         · have : lvl = 3 := by omega
           subst this; simp [hP, hS', this]
@@ -116,11 +149,12 @@ theorem walkFrom_set_off (m : PMem) (p4 : Word) (hwf : WF m p4) (p : List Nat) (
 
 /-- Off-path addresses keep their whole translation (including effective rights). -/
 theorem walk_set_off (m : PMem) (p4 : Word) (hwf : WF m p4) (p : List Nat) (f : Word) (i : Nat) (v : Word)
-    (hp : tblAt m p4 p = some f) (hpl : p.length ≤ 3) (va : Nat)
+    (hp : tblAt m p4 p = some f) (hpl : p.length ≤ 3) (hpi : IdxOK p) (va : Nat)
     (hoff : ¬ (p ++ [i] <+: vaPath va)) :
     walk (m.set f i v) p4 va = walk m p4 va := by
   rw [walk_eq_walkFrom, walk_eq_walkFrom]
-  exact walkFrom_set_off m p4 hwf p f i v hp hpl va 4 p4 [] true true rfl rfl (Or.inr (by simpa [vaPath] using hoff))
+  exact walkFrom_set_off m p4 hwf p f i v hp hpl hpi va 4 p4 [] true true rfl rfl (fun _ h => by cases h)
+    (Or.inr (by simpa [vaPath] using hoff))
 
 /-- **Frame rule (on the written word).** If `p ++ [i]` is a prefix of `va`'s path, both walks — before
 and after the write — reach the table `f` with the same accumulated rights and then process the
@@ -179,7 +213,12 @@ theorem walk_set_on (m : PMem) (p4 : Word) (hwf : WF m p4) (f : Word) (i : Nat) 
       obtain ⟨hP, hS, hta⟩ := (tableOf_some_iff _ _).1 hto
       have hne : ¬ (t = f ∧ j = i) := by
         rintro ⟨htf, _⟩
-        have := hwf r (r ++ j :: q) f (by omega) hlen (htf ▸ hr) hrq
+        have hall : IdxOK (r ++ j :: q) := by
+          have : r ++ j :: q <+: vaPath va := by
+            obtain ⟨rest, hrest⟩ := hpre
+            exact ⟨[i] ++ rest, by simpa using hrest⟩
+          exact IdxOK_of_prefix this
+        have := hwf r (r ++ j :: q) f (by omega) hlen (IdxOK_append.1 hall).1 hall (htf ▸ hr) hrq
         have hl := congrArg List.length this
         simp at hl
       have hrq' : tblAt m p4 ((r ++ [j]) ++ q) = some f := by simpa using hrq
